@@ -34,9 +34,9 @@ pub fn stack_sprite_fmt(v: &[usize], cw: u16, chh: u16, fmt: &Fmt) -> File {
     let fmt = fmt.clone();
     let n = v.len() / 8;
     let mut f = gen::file(cw, chh, &fmt, &[100, 100]);
-    if matches!(fmt, Fmt::Indexed(_)) {
-        // entries with alpha below 255 as well; the transparent index is in use
-        f.frames[0].push(new_palette(0, pal_entries(8, 3)));
+    if let Fmt::Indexed(t) = fmt {
+        // entries with alpha below 255 as well; the transparent index is in use (index 200: only by the blank tile 0)
+        f.frames[0].push(new_palette(0, pal_entries((t as usize + 1).max(8), 3)));
     }
     // shared tileset for tilemap layers: 1x1 tiles, tile 0 transparent
     let uses_tilemap = (0..n).any(|i| v[i * 8 + 3] == 3);
@@ -134,7 +134,7 @@ pub fn run(ctx: &Ctx) -> i32 {
         }
     }
     // the same balls for grayscale and indexed sprites (the composition works on the decoded RGBA pixels)
-    for (fname, fmt) in [("gray", Fmt::Gray), ("indexed", Fmt::Indexed(0)), ("indexed-t5", Fmt::Indexed(5))] {
+    for (fname, fmt) in [("gray", Fmt::Gray), ("indexed", Fmt::Indexed(0)), ("indexed-t5", Fmt::Indexed(5)), ("indexed-t200", Fmt::Indexed(200))] {
         for n in 1..=3usize {
             let k = if n == 3 { 1 } else if thorough { 3 } else { 2 };
             let fam = format!("stack-{}-n{}-k{}", fname, n, k);
@@ -312,6 +312,76 @@ pub fn run(ctx: &Ctx) -> i32 {
                 f.frames[0].push(tm_cel(1, 0, 0, 255, 2, 2, tiles));
                 conform(ctx, "tilemap-tile0", &case, &f, &want);
             }
+        });
+    }
+    // several tilesets whose ids are not 0..n: every tilemap layer is drawn with the tileset its id names
+    if ctx.wants_family("tileset-ids") {
+        let idsets: [[u32; 3]; 7] = [[0, 1, 2], [0, 2, 3], [1, 2, 3], [0, 2, 4], [5, 1, 3], [0, 1, 0x10001], [7, 8, 300]];
+        let cases: Vec<(usize, usize, usize)> = (0..idsets.len()).flat_map(|s| (0..3usize).flat_map(move |u| (0..3usize).map(move |f| (s, u, f)))).collect();
+        ctx.family("tileset-ids", cases.len() as u64, "three tilesets with ids {0,1,2} / {0,2,3} / {1,2,3} / {0,2,4} / {5,1,3} (stored in that order) / {0,1,65537} / {7,8,300}, different tile pixels each, one tilemap layer per tileset, 3 pixel formats; the case picks which layer is visible alone and all three are composited in a second frame", true);
+        cases.par_iter().for_each(|(si, vis, fi)| {
+            let case = || format!("tileset ids {:?} visible layer {} fmt{}", idsets[*si], vis, fi);
+            if !ctx.wants("tileset-ids", &case) {
+                return;
+            }
+            let fmt = [Fmt::Rgba, Fmt::Gray, Fmt::Indexed(0)][*fi].clone();
+            let mut f = gen::file(4, 2, &fmt, &[10, 20]);
+            if *fi == 2 {
+                f.frames[0].push(new_palette(0, pal_entries(8, 3)));
+            }
+            for (k, id) in idsets[*si].iter().enumerate() {
+                f.frames[0].push(Body::Tileset(tileset(*id, 3, 2, 2, tile_pixels(&fmt, 3, 2, 2, 10 + 4 * k as u32, (1, 7)), &format!("ts{}", k))));
+            }
+            for (k, id) in idsets[*si].iter().enumerate() {
+                let mut l = Layer::tilemap(&format!("m{}", k), *id);
+                l.flags = if k == *vis { 3 } else { 2 };
+                l.opacity = 255 - 30 * k as u8;
+                f.frames[0].push(Body::Layer(l));
+            }
+            for k in 0..3u16 {
+                f.frames[0].push(tm_cel(k, 0, 0, 255, 2, 1, vec![1 + (k as u32 % 2), 2]));
+                f.frames[1].push(tm_cel(k, 2 * (k as i16 % 2), 0, 200, 1, 1, vec![1 + k as u32 % 2]));
+            }
+            conform(ctx, "tileset-ids", &case, &f, &want);
+        });
+    }
+    // opaque cels with ONE non-opaque pixel, at the first / middle / each of the last 9 positions
+    if ctx.wants_family("tail-pixels") {
+        let shapes: [(u16, u16); 6] = [(9, 9), (13, 5), (67, 1), (10, 10), (8, 8), (3, 23)];
+        let mut cases: Vec<(usize, usize, u8, u16)> = Vec::new();
+        for sh in 0..shapes.len() {
+            for pos in 0..11usize {
+                for a in [0u8, 128] {
+                    for mode in [0u16, 1] {
+                        cases.push((sh, pos, a, mode));
+                    }
+                }
+            }
+        }
+        ctx.family("tail-pixels", cases.len() as u64, "an opaque red backdrop under a canvas-covering cel (Normal / Multiply, both opacities 255) of 64..100 pixels whose pixels are all opaque except ONE with alpha 0 or 128 at the first, the middle or one of the last 9 positions; shapes whose pixel count is and is not a multiple of 8", true);
+        cases.par_iter().for_each(|(sh, pos, a, mode)| {
+            let (w, h) = shapes[*sh];
+            let n = w as usize * h as usize;
+            let case = || format!("{}x{} position#{} alpha={} mode={}", w, h, pos, a, mode);
+            if !ctx.wants("tail-pixels", &case) {
+                return;
+            }
+            let fmt = Fmt::Rgba;
+            let mut f = gen::file(w, h, &fmt, &[10]);
+            f.frames[0].push(Body::Layer(Layer::image("back")));
+            let mut top = Layer::image("top");
+            top.blend = *mode;
+            f.frames[0].push(Body::Layer(top));
+            f.frames[0].push(raw_cel(0, 0, 0, 255, w, h, [255u8, 0, 0, 255].iter().cycle().take(n * 4).copied().collect()));
+            let mut px = opaque_pixels(&fmt, w as usize, h as usize, 3, (0, 0));
+            let at = match *pos {
+                0 => 0,
+                1 => n / 2,
+                p => n - 1 - (p - 2),
+            };
+            px[at * 4 + 3] = *a;
+            f.frames[0].push(raw_cel(1, 0, 0, 255, w, h, px));
+            conform(ctx, "tail-pixels", &case, &f, &want);
         });
     }
     nested(ctx, thorough);
